@@ -112,6 +112,33 @@ def gen_sched_case(rng, quick):
     return c, meta
 
 
+def pinned_sched_cases():
+    """cases every run executes first (no randomness): one stream of a host reaches EOF long before the other one
+    gets its data (virtual arrival times 0 vs 1, 2, 3) -- the poll loop has to go on with the remaining
+    descriptor alone (seeded C05-3: loop condition on stdout only) -- in both directions, under three schedules"""
+    out = []
+    for early, late in (("out", "err"), ("err", "out")):
+        for strat, seed in (("uniform", 11), ("first", 1), ("pct", 5)):
+            targets = [b"h1", b"h10"]
+            hosts, streams = [], {}
+            for i, t in enumerate(targets):
+                n = t
+                e_payload = n + b" early 1\n" + n + b" early tail"
+                l_chunks = [n + b" late 1\n", n + b" late 2\nla", b"te 3\n" + n + b" late tail"]
+                h = {"name": t.decode(), early: [[0, hexs(e_payload)]],
+                     late: [[at + 1, hexs(c)] for at, c in enumerate(l_chunks)]}
+                hosts.append(h)
+                streams[(i, "o" if early == "out" else "e")] = e_payload
+                streams[(i, "e" if early == "out" else "o")] = b"".join(l_chunks)
+            c = {"fanout": 2, "hosts": hosts, "seed": seed, "yield": "all", "inline": 0, "budget": 60000,
+                 "opts": {"labels": 1, "sopt": 1, "K": 0}, "strategy": strat, "tickrate": 60}
+            if strat == "pct":
+                c["pct"] = [3, 200]
+            out.append((c, {"targets": targets, "labels": True, "K": False, "streams": streams,
+                            "strategy": strat, "abandoned": [], "pinned": "%s-ends-first" % early}))
+    return out
+
+
 # ----------------------------------------------------------------------------- schedules
 def preempt_at_fputs(exe, case, scratch, rot=0, max_iter=120):
     """PF: after every stdio call of any worker switch to ANOTHER runnable worker and stay with it until the
@@ -281,6 +308,104 @@ def judge(ctx, prop, runs, cov, dist):
             cov["_distinct"].add(hash((payload, key, tuple(meta["targets"]), meta["labels"], tuple(res["choices"][:400]))))
 
 
+VFD_BASE = 1000       # harness/sched/vsched.h: virtual descriptors 1000+2h = stdout, 1001+2h = stderr of host h
+
+
+def loop_replay(ctx, runs, dist):
+    """Correspondence of the POLL LOOP of `_rsh_thread` (the real one, under the controlled scheduler) with the model,
+    worker by worker: every read(2) the worker made (as the schedule and the scripted transport cut the streams: short
+    reads, EAGAIN, EOF) is replayed through the model's handler (`pdshmodel relay index`: arrive exactly what the read
+    returned, one handler call) and the loop's end through `_flush_output` x 2; the worker's stdio calls -- stdout AND
+    stderr in the order it made them, final flushes included -- must be the model's, call by call.  (The per-stream
+    comparison in `judge` is by stream; this one also fixes the order between a worker's two streams and of the two
+    final flushes, and ties every handler call to the read it made.)"""
+    lines, index = [], []          # model input; index[k] = (run, worker) of line k, or None for `begin`
+    real = {}
+    st = dist["sched"].setdefault("loop_replay", {"workers": 0, "reads": 0, "short_or_eagain": 0, "skipped_err": 0})
+    for ri, (case, meta, res) in enumerate(runs):
+        if res["crash"] is not None or res["M"] is None or res["bug"] or res["M"].get("status") != "ok":
+            continue
+        log, widx = fputs_log(res)
+        lines.append("begin %d %d %d %s" % (meta["labels"], meta["K"], len(meta["targets"]),
+                                            " ".join(hexs(t) for t in meta["targets"])))
+        index.append(None)
+        per = {}
+        for _, ev in res["steps"]:
+            if len(ev) >= 2 and ev[0] in widx and ev[1] in ("read", "fputs"):
+                per.setdefault(ev[0], []).append(ev)
+        for th in sorted(per):
+            h = widx[th]
+            eofs, ok, calls = set(), True, []
+            for ev in per[th]:
+                if ev[1] == "fputs":
+                    b = unhex(ev[3]) if len(ev) > 3 else b""
+                    if ev[2] == "2" and b.startswith(b"pdsh@") and h in meta.get("abandoned", ()):
+                        continue          # dsh.c's own diagnostic about a host it gives up on
+                    calls.append((ev[2], b))
+                    continue
+                fd, ret, data = int(ev[2]), int(ev[4]), (ev[5] if len(ev) > 5 else "")
+                if fd < VFD_BASE or (fd - VFD_BASE) // 2 != h:
+                    ok = False
+                    break
+                sname = "oe"[(fd - VFD_BASE) & 1]
+                if sname in eofs:
+                    continue              # the model closed the descriptor at the first EOF it was shown
+                st["reads"] += 1
+                if ret > 0:
+                    lines.append("feed %d %s %s" % (h, sname, data))
+                elif data == "EOF":
+                    lines.append("eof %d %s" % (h, sname))
+                    eofs.add(sname)
+                elif data == "EAGAIN":
+                    lines.append("feed %d %s -" % (h, sname))
+                    st["short_or_eagain"] += 1
+                else:
+                    ok = False            # a read error: the handler prints a diagnostic (not modelled)
+                    st["skipped_err"] += 1
+                    break
+                index.append((ri, th))
+            if not ok:
+                real[(ri, th)] = None
+                continue
+            lines.append("flush %d" % h)
+            index.append((ri, th))
+            real[(ri, th)] = calls
+            st["workers"] += 1
+            if h not in meta.get("abandoned", ()) and eofs != {"o", "e"}:
+                # C05.poll_loop_left_only_at_eof_of_both: a worker that was not given up on leaves the loop only
+                # after a read on EACH descriptor has returned 0
+                rc = replay_form(case, meta, res)
+                ctx.disagreement("poll loop of _rsh_thread vs the model (loop replay)",
+                                 "worker %s (host %r) left the poll loop although only %s had reached EOF (model: the "
+                                 "loop is left only when both descriptors are closed)" % (
+                                     th, meta["targets"][h].decode(), sorted(eofs) or "no stream"),
+                                 rc if len(str(rc)) < 1300 else None)
+    if not lines:
+        return
+    ans = relay.run_model(ctx, ["index", "1"], "".join(l + "\n" for l in lines))
+    model = {}
+    for a, ix in zip(ans, index):
+        if ix is None:
+            continue
+        pa = relay.parse_answer(a)
+        model.setdefault(ix, []).extend(pa[3] if pa else [("?", a.encode())])
+    for key, calls in real.items():
+        if calls is None:
+            continue
+        exp = model.get(key, [])
+        if exp != calls:
+            ri, th = key
+            case, meta, res = runs[ri]
+            k = next((i for i in range(min(len(exp), len(calls))) if exp[i] != calls[i]), min(len(exp), len(calls)))
+            rc = replay_form(case, meta, res)
+            ctx.disagreement("poll loop of _rsh_thread vs the model (loop replay)",
+                             "worker %s (host %r): stdio call #%d: impl %r model %r (impl %d calls, model %d)" % (
+                                 th, meta["targets"][fputs_log(res)[1][th]].decode(), k,
+                                 (calls[k][0], calls[k][1][:40]) if k < len(calls) else None,
+                                 (exp[k][0], exp[k][1][:40]) if k < len(exp) else None, len(calls), len(exp)),
+                             rc if len(str(rc)) < 1300 else None)
+
+
 def replay_form(case, meta, res):
     """the run as a deterministic replay: the schedule actually taken becomes an explicit choice list"""
     c = dict(case, strategy="list", choices=list(res.get("choices") or []), spurious=None)
@@ -334,17 +459,21 @@ def run_sched(ctx, prop, cov, dist, exe=None):
         return
     quick = ctx.quick()
     n = 200 if quick else 5000
-    specs = [gen_sched_case(rng, quick) for _ in range(n)]
+    specs = pinned_sched_cases() + [gen_sched_case(rng, quick) for _ in range(n)]
 
     def one(spec):
         case, meta = spec
         if meta["strategy"] == "pf":
             return (case, meta, preempt_at_fputs(exe, case, ctx.scratch, rot=case["seed"] % 7))
-        return (case, meta, sched.run_case(exe, case, ctx.scratch, timeout=60))
+        res = sched.run_case(exe, case, ctx.scratch, timeout=60)
+        if res["crash"] is not None and "TIMEOUT" in res["crash"]:
+            res = sched.run_case(exe, case, ctx.scratch, timeout=240)      # a timeout alone is re-tried once
+        return (case, meta, res)
     with concurrent.futures.ThreadPoolExecutor(max_workers=sched.NWORKERS) as ex:
         runs = list(ex.map(one, specs))
     for lo in range(0, len(runs), 400):
         judge(ctx, prop, runs[lo:lo + 400], cov, dist)
+        loop_replay(ctx, runs[lo:lo + 400], dist)
     if not quick:
         ex_stats = []
         for case, meta in tiny_configs():
